@@ -425,6 +425,16 @@ pub fn run(r: &mut Runner) {
             }
         }
     }
+    // every single set / single cleared fraction bit (a one-bit slip in a mask used by the validity test) at a few exponents
+    for e in [-1022, -500, -1, 0, 1, 53, 500, 1023] {
+        for p in 0..52 {
+            for f in [1u64 << p, ((1u64 << 52) - 1) ^ (1u64 << p)] {
+                for s in [false, true] {
+                    his.push(mk_f64(s, e, f).unwrap());
+                }
+            }
+        }
+    }
     for f in [1u64, 2, (1u64 << 52) - 1] {
         his.push(mk_subnormal(false, f));
         his.push(mk_subnormal(true, f));
